@@ -33,7 +33,13 @@ let () =
                              (String.concat "," (List.map (fun c -> string_of_int (int_of_nat (sys_idx (call_name c)))) (dispatch switch_body o)))
                              (if has_case switch_body o then "" else "!nocase")) all_ops in
        let nj = List.map (fun ((n, p), y) -> Printf.sprintf "%s:%d:%d" (ostring n) (b2i p) (b2i y)) nojob_wrappers in
-       Printf.printf "T W %s D %s N %s\n" (String.concat " " ws) (String.concat " " ds) (String.concat " " nj)
+       Printf.printf "T W %s D %s N %s E %d %d\n" (String.concat " " ws) (String.concat " " ds) (String.concat " " nj)
+         (b2i (errno_carried switch_body proxy_tail wrappers)) (b2i (errno_absent proxy_tail wrappers))
+     | ["R"; wname; e0; gerr; ret; err] ->
+       (* caller's errno after a wrapper call, per the generated tables *)
+       (match find_wrapper wrappers (cstring wname) with
+        | None -> print_endline "ERR no such wrapper in the generated table"
+        | Some w -> print_endline ("R " ^ bits_of_z (errno_after_wrapper proxy_tail w (z_of_bits e0) (z_of_bits gerr) (z_of_bits ret) (z_of_bits err))))
      | "C" :: wname :: gfill :: rest ->
        (* C <wrapper> <garbage 0|1> <thr> r <rets...> p <params...> *)
        (match find_wrapper wrappers (cstring wname) with
